@@ -18,7 +18,8 @@ PRELUDE = [
     "struct S s1 = { .a = 1, .b = 2, .in = { .c = 3, .d = 'x' }, .arr = { 1, 2 } }, *sp = &s1;",
     "union U un = { .i = 4 };",
     "const char *msg = \"hi\" \" there\";",
-    "volatile int vflag;",
+    "volatile int vflag, vg2;",
+    "double d1 = 1.5, d2 = 2.25, d3 = 1e-3; float f1 = 0.5f;",
     "extern int ext_fn(int, ...);",
     "static int sf(int x) { return x + 1; }",
     "static int two(int x, int y) { return x * y - 1; }",
@@ -52,6 +53,8 @@ class Sem:
         r = self.r
         if d > 0 and r.random() < 0.2:
             return self.chain(), "assign"
+        if d > 0 and r.random() < 0.12:
+            return self.fexpr(), "other"
         if d <= 0 or r.random() < 0.25:
             return r.choice(INT_ATOMS), "atom"
         k = r.randint(0, 11)
@@ -70,6 +73,15 @@ class Sem:
         if k == 10:
             return f"({r.choice(['long', 'unsigned', 'char', 'T', 'UL'])}) {self.op(d - 1, unary=True)}", "other"
         return f"{r.choice(INT_LVALUES)} {r.choice(ASSIGN)} {self.expr(d - 1)}", "assign"
+
+    def fexpr(self):
+        """floating-point / volatile arithmetic with explicit grouping on either side: regrouping it changes what is computed"""
+        r = self.r
+        a = lambda: r.choice(["d1", "d2", "d3", "f1", "1.5", "2.0f", "(double) a", "vflag", "vg2"])
+        o = lambda: r.choice(["+", "-", "*", "/"])
+        forms = ["{a} {o} ({b} {p} {c})", "({a} {o} {b}) {p} {c}", "{a} {o} {b} {p} {c}", "{a} {o} ({b} {p} ({c} {q} {d}))", "(({a} {o} {b}) {p} {c}) {q} {d}",
+                 "{a} {o} ({b} {o} {c})", "{a} * ({b} * {c}) + ({d} + ({a} + {b}))"]
+        return "(int) (" + r.choice(forms).format(a=a(), b=a(), c=a(), d=a(), o=o(), p=o(), q=o()) + ")"
 
     def chain(self):
         """a flat chain of 2..6 binary operators over atoms and prefix / postfix / cast operands with NO parentheses (optionally under a
